@@ -47,6 +47,15 @@ func (t *Telnet) handleControlCharResponse(ctrlBuf []byte, c byte) ([]byte, erro
 		}
 	} else if len(ctrlBuf) == 1 && util.ByteIsAny(c, []byte{do, dont, will, wont}) {
 		ctrlBuf = append(ctrlBuf, c)
+	} else if len(ctrlBuf) == 1 {
+		// not an option negotiation: a two byte command (IAC NOP, IAC GA, ...) or an escaped
+		// IAC -- either way the sequence is complete, go back to passing data through
+		ctrlBuf = make([]byte, 0)
+
+		if c == iac {
+			// IAC IAC is a literal 0xFF data byte
+			t.initialBuf = append(t.initialBuf, c)
+		}
 	} else if len(ctrlBuf) == 2 { //nolint:mnd
 		cmd := ctrlBuf[1:2][0]
 		ctrlBuf = make([]byte, 0)
